@@ -24,7 +24,7 @@ from harness.sexp import Sym
 CASE_TIMEOUT = {"quick": 60, "thorough": 120}
 BASES = ["int", "bool", "string", "char", "float"]
 GENERICS = ["list", "list", "list", "set", "opt"]
-MAX_INSTANCES = 1500
+MAX_INSTANCES = 700
 
 
 # ------------------------------------------------------------------ AST helpers (harness' own)
@@ -432,7 +432,7 @@ def gen_any_type(rng, depth):
     if depth <= 0 or r < 0.3:
         r2 = rng.random()
         if r2 < 0.5:
-            return P(rng.choice(BASES + ["unit", "unit"]))
+            return P(rng.choice(BASES[:3] + ["unit", "unit", "unit"]))
         if r2 < 0.75:
             return V(rng.choice("abc"))
         if r2 < 0.95:
@@ -448,6 +448,10 @@ def gen_any_type(rng, depth):
 def gen(rng, i, tier):
     if i % 5 == 4:
         t = gen_any_type(rng, rng.randint(1, 4))
+        if rng.random() < 0.3:
+            t = F(rng.choice("abc"), [gen_any_type(rng, rng.randint(0, 2)) for _ in range(rng.randint(1, 3))])
+        elif rng.random() < 0.4:
+            t = arrows([gen_any_type(rng, rng.randint(0, 2)) for _ in range(rng.randint(1, 4))], gen_any_type(rng, 1))
         o = gen_any_type(rng, rng.randint(0, 3))
         if rng.random() < 0.5:
             # an instance-like second type: related to the first one
@@ -556,6 +560,8 @@ def check_dsl(case, M):
         once, twice = impl_instantiate(syntax, bound)
         err = None
     except Exception as e:  # noqa
+        if type(e).__name__ == "CaseTimeout":
+            raise
         once, twice, err = [], [], type(e).__name__
     if err:
         failures.append(fail("corr", "instantiate_polymorphic_types raised", err))
@@ -584,6 +590,8 @@ def check_dsl(case, M):
             if msorted(rev) != i_once:
                 failures.append(fail("oracle" if wf else "corr", "result depends on the order of the declarations", diff(i_once, msorted(rev))))
         except Exception as e:  # noqa
+            if type(e).__name__ == "CaseTimeout":
+                raise
             failures.append(fail("corr", "instantiate_polymorphic_types raised", type(e).__name__))
 
     allnodes = [x for _, t in syntax for x in walk(t)]
@@ -630,6 +638,8 @@ def check_ty(case, M):
         try:
             got = fn()
         except Exception as e:  # noqa
+            if type(e).__name__ == "CaseTimeout":
+                raise
             got = "raised:" + type(e).__name__
         if got != model:
             failures.append(fail("corr", f"type operation {label} differs from the model", f"type {canon(t)} other {canon(o)}: impl={got} model={model}"))
@@ -648,7 +658,8 @@ def check_ty(case, M):
     clash = any(x[0] != y[0] and x[1] == y[1] for x in vs for y in vs)
     if not clash and all(well_formed(x) for x in vs):
         obs("decompose_type[1]", lambda: sorted(set(canon_setlike(of_impl(x)) for x in it.decompose_type()[1])), sorted(set(canon_setlike(unwire(x)) for x in ans["vars"])))
-    obs("all_versions", lambda: [canon(of_impl(x)) for x in it.all_versions()], [canon(unwire(x)) for x in ans["versions"]])
+    # the order of the versions is not part of the property: compare as multisets
+    obs("all_versions", lambda: sorted(canon(of_impl(x)) for x in it.all_versions()), sorted(canon(unwire(x)) for x in ans["versions"]))
     obs("without_unit_arguments", lambda: canon(of_impl(it.without_unit_arguments())), canon(unwire(ans["nounit"])))
     obs("unify", lambda: canon(of_impl(it.unify({name: iv}))), canon(uni))
     obs("is_instance", lambda: io.is_instance(it), rel["isinst"] == "1")
